@@ -376,7 +376,7 @@ func runConcDuo(tw *traceWriter, r *rand.Rand, round, servers int) {
 					got, _ := regProbe(c, "D", p)
 					want := "404"
 					if present[op[1]] {
-						want = "200|ws:" + op[1] + ":/x||"
+						want = "200|ws:" + op[1] + ":/x|||1"
 					}
 					ownMu.Lock()
 					own = append(own, [3]string{"D" + p, norm404(got), want})
